@@ -10,44 +10,58 @@ import Panoptica.Proofs.Purity
 namespace Panoptica.C15
 open Panoptica.Pure
 
-/-- well-formed world: every cached location exists, is private to its evaluator and is not an
-    aggregator's key list; aggregator key lists exist -/
+/-- well-formed world: every aggregator key list exists; every cached location exists, is private
+    to its evaluator and is not an aggregator's key list -/
 def WF (w : World) : Prop :=
-  ∀ (e : Nat) (ev : Evaluator), w.evals[e]? = some ev → ∀ c, ev.cache = some c → c < w.heap.length ∧
-    (∀ (e' : Nat) (ev' : Evaluator), w.evals[e']? = some ev' → ev'.cache = some c → e' = e) ∧ c ∉ w.aggKeys ∧
-    (∀ l ∈ w.aggKeys, l < w.heap.length)
+  (∀ l : Nat, l ∈ w.aggKeys → l < w.heap.length) ∧
+  ∀ (e : Nat) (ev : Evaluator) (c : Nat), w.evals[e]? = some ev → ev.cache = some c →
+    c < w.heap.length ∧ c ∉ w.aggKeys ∧
+    ∀ (e' : Nat) (ev' : Evaluator), w.evals[e']? = some ev' → ev'.cache = some c → e' = e
 
 /-- no operation changes any evaluator's configuration, and evaluators are never removed -/
 theorem cfg_stable (w : World) (op : Op) (e : Nat) (ev : Evaluator) (h : w.evals[e]? = some ev) :
-    ∃ ev', (step w op).1.evals[e]? = some ev' ∧ ev'.cfg = ev.cfg := by
-  sorry
+    ∃ ev', (step w op).1.evals[e]? = some ev' ∧ ev'.cfg = ev.cfg :=
+  cfg_stable_step w op e ev h
 
 /-- the advertised metric keys of every existing evaluator are unchanged by every operation
-    (in particular by constructing aggregators with `log_times=True` from it) -/
+    (in particular by constructing aggregators with `log_times=True` from it), and well-formedness
+    is preserved -/
 theorem keys_stable_step (w : World) (hw : WF w) (op : Op) (e : Nat) (ks : List String)
     (h : advertised w e = some ks) : advertised (step w op).1 e = some ks ∧ WF (step w op).1 := by
-  sorry
+  obtain ⟨h1, h2⟩ := step_strong w hw op
+  exact ⟨h2 e ks h, h1⟩
+
+/-- every reachable world is well-formed -/
+theorem WF_reachable (ops : List Op) : WF (runOps step empty ops).1 :=
+  (Good_run ops).1
 
 /-- ... hence along every history: the keys are those determined by the configuration -/
 theorem keys_stable (ops : List Op) (e : Nat) (ev : Evaluator)
     (h : (runOps step empty ops).1.evals[e]? = some ev) :
-    advertised (runOps step empty ops).1 e = some (resultKeys ev.cfg.evalMetrics ev.cfg.globalMetrics) := by
-  sorry
+    advertised (runOps step empty ops).1 e = some (resultKeys ev.cfg.evalMetrics ev.cfg.globalMetrics) :=
+  (Good_run ops).2 e ev h
 
 /-- history and option independence: whatever happened before (`pre`), whatever options are passed,
     `evaluate` on evaluator `e` returns the result determined by the configuration it was built
     with and the input alone, and never fails for an existing evaluator -/
 theorem history_independent (pre : List Op) (e : Nat) (ev : Evaluator) (input : Nat) (o : Opts)
     (h : (runOps step empty pre).1.evals[e]? = some ev) :
-    ∃ t, (step (runOps step empty pre).1 (Op.evaluate e input o)).2 = Out.result ev.cfg input t := by
-  sorry
+    ∃ t, (step (runOps step empty pre).1 (Op.evaluate e input o)).2 = Out.result ev.cfg input t :=
+  ⟨_, step_evaluate _ e input o ev h⟩
 
 /-- the configuration an evaluator saves after any history is the one it was constructed with -/
 theorem config_stable (pre post : List Op) (cfg : EvalCfg) :
     let w1 := (runOps step empty (pre ++ [Op.newEvaluator cfg])).1
     let e := (runOps step empty pre).1.evals.length
     (step (runOps step w1 post).1 (Op.saveConfig e)).2 = Out.config cfg := by
-  sorry
+  intro w1 e
+  have h1 : w1.evals[e]? = some { cfg := cfg, cache := none } := by
+    show (runOps step empty (pre ++ [Op.newEvaluator cfg])).1.evals[e]? = _
+    rw [runOps_append_fst]
+    show ((runOps step empty pre).1.evals ++ [{ cfg := cfg, cache := none }])[e]? = _
+    simp [e]
+  obtain ⟨ev', h2, hc⟩ := cfg_stable_run w1 post e _ h1
+  rw [step_saveConfig _ e ev' h2, hc]
 
 /-- regression (repaired defect): with the cached list handed out by reference, one aggregator
     with `log_times=True` changed the evaluator's advertised keys -/
